@@ -77,7 +77,7 @@ def synparam(c):
         c.ensure("out_of_bounds_value_beyond_supported_delay", res.f == z3.If(within, base, ob.z))
     if calls:
         args, kw = calls[0]
-        c.ensure("select_wiring", z3.And(args[2] == interp_fn, num(kw.get("tolerance")) == tol.z, kw.get("interp_kwargs") is ikw, "offset" not in kw))
+        c.ensure("select_wiring", z3.And(args[2] == interp_fn, eqnum(kw.get("tolerance"), tol.z), kw.get("interp_kwargs") is ikw, "offset" not in kw))
     c.canary("canary_unclamped", z3.And(z3.Not(undelayed), res.f == TF(SELV(sel.f)), sel.f > dur.z))
 
 
@@ -301,6 +301,7 @@ ASSUMPTIONS = [
 ]
 
 MUTANTS = [
+    dict(file=SM, func="_synparam_at", old="                tolerance=tolerance,\n", new="", contracts=["_synparam_at"], name="seed C04b: the synapse's interpolation tolerance is not forwarded to select"),
     dict(file=SM, func="SpikeMixin.spike_at", old="self.__tolerance,\n            self.__overbound,", new="self.__overbound,\n            self.__tolerance,", contracts=["DeltaCurrent.*_at[wiring]", "SingleExponentialCurrent.*_at[wiring]"], name="D5 regression: spike_at tolerance/overbound swapped"),
     dict(file=SM, func="_synparam_at", old="bounded_selector = selector.clamp(min=0, max=value.duration)", new="bounded_selector = selector", contracts=["_synparam_at"]),
     dict(file=SM, func="_synparam_at", old="(selector - bounded_selector).abs() <= tolerance, res, overbound", new="(selector - bounded_selector).abs() >= tolerance, res, overbound", contracts=["_synparam_at"]),
